@@ -427,8 +427,21 @@ def r5(cx, rec):
     big = [bi for bi, si, e in mirq.agg_sites(P, r'^error::Error$', 'MsgToLarge')]
     rec.need(bool(big), 'no-size-limit', P, None, 'no MsgToLarge rejection in Frame::parse')
     guard = None
+    helper_exempt = {}
     for sb in P.switches():
         e, ts, o = P.cond(sb)
+        if e[0] == 'call' and e[1] in F.fns and e[4].get('inl') is not None and e[4]['inl'][0] == 'phi' and P.bool_edges(sb):
+            # the test written as a private bool helper `fn too_big(id, len) -> bool { id != Handshake && len > MAX }`: its value is
+            # the comparison or false, and the only other decision it takes is the handshake exemption
+            alts = e[4]['inl'][1]
+            cmpx = [a for a in alts if a[0] == 'binop' and a[1] in ('Gt', 'Ge') and const_of(a[3]) and (const_of(a[3])[1] or '').endswith('MAX_FRAME_SIZE')]
+            rest = [a for a in alts if a not in cmpx]
+            hg = F.fn(e[1])
+            hs_only = all(hg.cond(s2)[0][0] == 'call' and hg.cond(s2)[0][4].get('name') in ('ne', 'eq') and
+                          any(x[0] == 'agg' and x[3] == 'HandshakeId' for x in walk(hg.cond(s2)[0])) for s2 in hg.switches())
+            if len(cmpx) == 1 and rest and all(a[0] == 'const' and a[3] == 'bool' and not a[1] for a in rest) and hs_only and hg.switches():
+                e = cmpx[0]
+                helper_exempt[sb] = (hg, hg.switches()[0])
         if e[0] == 'binop' and e[1] in ('Gt', 'Ge', 'Le', 'Lt'):
             c = const_of(e[3])
             if c and c[1] and c[1].endswith('MAX_FRAME_SIZE'):
@@ -440,6 +453,8 @@ def r5(cx, rec):
     if not guard:
         raise AnchorMissing('no comparison of the length with MAX_FRAME_SIZE guards MsgToLarge')
     sb, over, under, ge = guard
+    if sb in helper_exempt:
+        rec.site(helper_exempt[sb][0], helper_exempt[sb][1], 'handshake exemption of the size guard (inside the guard\'s helper)')
     lensrc = show(ge[2])
     rec.site(P, sb, 'size guard %s' % show(ge)[:100])
     rec.need('get_message_length' in lensrc or 'length' in lensrc, 'size-guard-wrong-operand', P, sb, 'size guard does not test the length prefix')
@@ -646,8 +661,8 @@ def r7b(cx, rec):
     P = parse_fn(F)
     for bb, tgt in C.local_calls(F, P):
         g = F.fn(tgt)
-        if g.self_ty != P.self_ty:
-            continue
+        if g.self_ty != P.self_ty and not (not g.self_ty and g.path.rsplit('::', 1)[0] == P.path.rsplit('::', 2)[0]):
+            continue   # (a private free function of the decoder's module is a getter like an associated one)
         gn = None
         gsb = None
         tt = None
